@@ -366,21 +366,7 @@ class Exec:
             callee = self.tu.by_did.get(e["callee"]["did"])
             if callee is None or callee.body is None:
                 raise AnalysisBroken("body of %s not available" % name)
-            actual = args[1:] if e.get("member_call") else args
-            vals = [self.ev(a) for a in actual]
-            saved = self.env
-            self.env = {}
-            for p, v in zip(callee.params, vals):
-                self.env[p["did"]] = v
-            try:
-                for st in kids(callee.body):
-                    self.stmt(st)
-                ret = None
-            except _Return as r:
-                ret = r.v
-            finally:
-                self.env = saved
-            return ret
+            return self._inline(callee, args[1:] if e.get("member_call") else args)
         if name in ("copy", "copy_backward", "move", "move_backward") and len(args) == 3:
             first, last, dest = (self.ev(a) for a in args)
             if not all(isinstance(x, ArrPtr) for x in (first, last, dest)) or first.node is not last.node or first.field != last.field:
@@ -456,7 +442,37 @@ class Exec:
             return v
         if name == "get" and len(args) == 1:        # key_of_value::get(value)
             return keyof(self.ev(args[0]))
+        if name == "make_pair" and len(args) == 2:
+            return ("obj", "std::pair", [self.ev(a) for a in args])
+        # a private helper of the same class that the rule did not name: execute its body (by-value and pointer
+        # parameters only, no recursion)
+        if self.tu is not None and e.get("member_call") and args and strip_casts(args[0])["k"] == "This" and \
+                name != self.fn.name and self._depth < 4:
+            callee = self.tu.by_did.get(e["callee"]["did"])
+            if callee is not None and callee.body is not None and \
+                    not any((p.get("ty") or "").rstrip().endswith("&") and "const" not in (p.get("ty") or "") for p in callee.params):
+                return self._inline(callee, args[1:])
         raise AnalysisBroken("call to %s() at line %s not modelled" % (name, e.get("l")))
+
+    _depth = 0
+
+    def _inline(self, callee, actual):
+        vals = [self.ev(a) for a in actual]
+        saved = self.env
+        self.env = {}
+        for p, v in zip(callee.params, vals):
+            self.env[p["did"]] = v
+        self._depth += 1
+        try:
+            for st in kids(callee.body):
+                self.stmt(st)
+            ret = None
+        except _Return as r:
+            ret = r.v
+        finally:
+            self.env = saved
+            self._depth -= 1
+        return ret
 
     # ---- statements -------------------------------------------------------------------
     def stmt(self, s):
